@@ -411,4 +411,15 @@ def rebuild (fuel : Nat) (w : World) (r : Nat) : World :=
   let w := setBases fuel w r x.bases
   let w := regs.foldl (fun w e => register fuel w r e.1 (e.2.1.getD 0) e.2.2.1 e.2.2.2) w
   subs.foldl (fun w e => subscribe fuel w r e.1 e.2.1 e.2.2) w
+
+/-- `_createLookup()`: the lookup object is thrown away and a new one is made for the registry as it stands (what unpickling a
+    persistent registry does): empty caches, no generation snapshot, and an extendors table built by `init_extendors` from the
+    keys of `_provided` in their insertion order; then `changed()` of the new lookup object (a generation-checking one takes its
+    snapshot).  The registration data is untouched. -/
+def relookup (w : World) (r : Nat) : World :=
+  let x := w.reg r
+  let x0 := { x with extendors := [], cache := [], mcache := [], scache := [], verifyRo := [], verifyGen := [] }
+  let w := w.setReg r (x.provided.foldl (fun acc pc => addExtendor w acc pc.1) x0)
+  -- ... followed by `_v_lookup.changed(registry)`, as a persistent registry's `__setstate__` does
+  if w.verifying then verifyingChanged w r else w
 end ZI.Registry
